@@ -662,6 +662,46 @@ def _same_constant(value1: ir.Value, value2: ir.Value) -> bool:
     return np.array_equal(tensor1.numpy(), tensor2.numpy())
 
 
+def _can_insert_replacement_after(
+    graph_or_function: ir.Graph | ir.Function, node: ir.Node, delta: ReplacementSubgraph
+) -> bool:
+    """Checks that the replacement nodes can be inserted right after ``node``.
+
+    Only patterns with several output nodes can fail this: a matched node other than ``node``
+    may have a consumer that precedes ``node``, and a replacement node may use a value that is
+    produced after ``node``. Inserting the replacement after ``node`` would then leave the
+    graph unsorted.
+    """
+    other_outputs = [v for v in delta.match.outputs if v.producer() is not node]
+    if not other_outputs:
+        return True
+    position = {n: i for i, n in enumerate(graph_or_function)}
+    insertion = position.get(node)
+    if insertion is None:
+        return True
+    matched = set(delta.match.nodes)
+    for value in other_outputs:
+        for consumer, _ in value.uses():
+            if consumer in matched:
+                continue
+            consumer_position = position.get(consumer)
+            if consumer_position is None or consumer_position < insertion:
+                # A consumer in a nested subgraph (unknown position) or before "node"
+                return False
+    new_nodes = set(delta.new_nodes)
+    for new_node in delta.new_nodes:
+        for value in new_node.inputs:
+            if value is None:
+                continue
+            producer = value.producer()
+            if producer is None or producer in new_nodes:
+                continue
+            producer_position = position.get(producer)
+            if producer_position is not None and producer_position > insertion:
+                return False
+    return True
+
+
 def _register_new_initializer(initializers, initializer: ir.Value) -> ir.Value | None:
     """Registers an initializer created by a rewrite without clobbering one that is in use.
 
@@ -733,6 +773,12 @@ class RewriteRuleSet:
                 if delta is None or tracer is not None:
                     continue
                 assert isinstance(delta, ReplacementSubgraph)
+                if not _can_insert_replacement_after(graph_or_function, node, delta):
+                    # The replacement is inserted after "node". For a pattern with several
+                    # output nodes that is not always a valid position.
+                    if verbose:
+                        print(f"Rewrite skipped, no valid insertion point: {rule}")
+                    continue
                 if delta.new_initializers:
                     if isinstance(graph_or_function, ir.Function):
                         # TODO(rama): Can't add initializers to functions. But currently this is not
